@@ -16,20 +16,32 @@ EXTENDS Integers, Sequences, FiniteSets, TLC, Json
 Sites == {"add-filler", "new-builder", "builder-returns-nil", "extender", "prepend-decorator", "append-decorator",
           "filler-middleware", "bar-option", "container-option", "output", "debug-output",
           "shutdown-notifier", "manual-refresh-channel", "queue-after", "render-delay"}
-Kinds == {"nil", "typed-nil"}
+(* the conditional helpers (BarOptional, BarOptOn, BarFuncOptional, BarFuncOptOn and their Container twins) hand the
+   library nil when the condition is false and the option itself when it is true; the Func flavours must not even
+   build the option when the condition is false *)
+Helpers == {"optional", "opt-on", "func-optional", "func-opt-on"}
+HelperKinds == {h \o ":" \o b : h \in Helpers, b \in {"false", "true"}}
+Kinds == {"nil", "typed-nil"} \cup HelperKinds
+IsTrueHelper(k) == k \in {h \o ":true" : h \in Helpers}
 Modes == {"manual", "auto", "none"}
 
 (* a typed nil exists only where the parameter is an interface that a nil func value can inhabit *)
 HasTypedNil(site) == site \in {"add-filler", "extender", "builder-returns-nil"}
 Valid(c) == /\ (c.kind = "typed-nil" => HasTypedNil(c.site))
+            /\ (c.kind \in HelperKinds => c.site \in {"bar-option", "container-option"})
             /\ (c.site = "manual-refresh-channel" => c.mode = "manual")
 
 Cases == {c \in [site : Sites, kind : Kinds, mode : Modes] : Valid(c)}
 
 (* what the documentation promises for the case *)
 \* frames reach the output (a nil output discards everything; a nil refresh channel means no manual refresh)
-Drawn(c) == c.mode # "none" /\ c.site \notin {"output", "manual-refresh-channel"}
-Expect(c) == [panics |-> FALSE, waitReturns |-> TRUE, framesWritten |-> Drawn(c), lateAddIsErrDone |-> TRUE]
+\* (the option a container helper guards is "no output": when it is applied nothing may reach the writer)
+Applied(c) == IsTrueHelper(c.kind)
+Drawn(c) == c.mode # "none" /\ c.site \notin {"output", "manual-refresh-channel"} /\ ~(c.site = "container-option" /\ Applied(c))
+\* optionApplied: the guarded option takes effect (bar: the id it sets; container: no output); optionBuilt: a Func flavour
+\* calls its constructor exactly when the condition holds
+Expect(c) == [panics |-> FALSE, waitReturns |-> TRUE, framesWritten |-> Drawn(c), lateAddIsErrDone |-> TRUE,
+              optionApplied |-> Applied(c), optionBuilt |-> Applied(c)]
 
 VARIABLE c
 Init == c \in Cases
@@ -38,6 +50,7 @@ Spec == Init /\ [][Next]_c
 
 Total == \A s \in Sites : \E x \in Cases : x.site = s
 ASSUME Total
+ASSUME \A k \in HelperKinds, m \in Modes : \A st \in {"bar-option", "container-option"} : [site |-> st, kind |-> k, mode |-> m] \in Cases
 NeverPanics == ~Expect(c).panics /\ Expect(c).waitReturns
 EmitCase == PrintT(<<"API", ToJson([c |-> c, expect |-> Expect(c)])>>)
 =============================================================================
